@@ -129,6 +129,7 @@ Outcome run_threads(const Plan & plan, const RunCtx & ctx)
   std::vector<TaskLog> conc((size_t)ntasks);
   std::vector<std::function<void()>> bodies;
   for (int t = 0; t < ntasks; t++) bodies.push_back([&plan, t, &conc]() { task_body(plan, t, conc[(size_t)t]); });
+  std::string tsan_cls, tsan_sig, tsan_detail;
 #if defined(SIM_FLAVOUR_tsan)
   // ThreadSanitizer appends its reports to <san_dir>/log.<pid> as it finds them (halt_on_error=0)
   std::string tsan_log = san_dir() + "/log." + std::to_string((long)getpid());
@@ -151,8 +152,10 @@ Outcome run_threads(const Plan & plan, const RunCtx & ctx)
     size_t k = txt.find("WARNING: ThreadSanitizer: ");
     std::string kind = k == std::string::npos ? "report" : txt.substr(k + 26, txt.find_first_of("(\n", k + 26) - (k + 26));
     while (!kind.empty() && kind.back() == ' ') kind.pop_back();
-    if (check && in_sut) out.fail("C12", "tsan-" + kind, "tsan " + kind + " @ " + where, "ThreadSanitizer: " + kind + " at " + where + " (report in " + tsan_log + ")");
-    else if (!in_sut) out.ctr["diag_tsan_report_outside_sut"]++;
+    // (reported after the model-level oracles below, so that the class of a violating run does not depend
+    // on ThreadSanitizer's once-per-process report de-duplication)
+    if (in_sut) { tsan_cls = "tsan-" + kind; tsan_sig = "tsan " + kind + " @ " + where; tsan_detail = "ThreadSanitizer: " + kind + " at " + where + " (report in " + tsan_log + ")"; }
+    else out.ctr["diag_tsan_report_outside_sut"]++;
   }
 #endif
   out.ctr["sched_steps"] += cr.steps;
@@ -215,6 +218,8 @@ Outcome run_threads(const Plan & plan, const RunCtx & ctx)
         break;
       }
     }
+    // (3b) memory-level races seen by ThreadSanitizer
+    if (!tsan_cls.empty()) out.fail("C12", tsan_cls, tsan_sig, tsan_detail);
     // (4) bounded completion
     if (cr.step_overflow) out.fail("C12", "no-progress", "no-progress", "a task exceeded the step budget of " + std::to_string(MAX_STEPS) + " schedule points");
   }
